@@ -318,3 +318,60 @@ func TestC09_HandBuilt(t *testing.T) {
 }
 
 var _ = fmt.Sprintf
+
+// TestC09_PaginatedScenarios: the protobuf forms of buffered-paginated stores in the structured states of
+// TestC04_PaginatedScenarios (pages, weighted runs filling pages, unit clusters, scattered units; possibly cleared
+// and rebuilt, so that pages kept for reuse lie between the ones in use): message and streamed bytes must agree and
+// rebuild, into every non-collapsing store kind, exactly the content of the model.
+func TestC09_PaginatedScenarios(t *testing.T) {
+	rapid.Check(t, func(t *rapid.T) {
+		cl := newCase("C09")
+		cl.label("mode:paginated-scenario")
+		cl.label("source:paginated")
+		bud := model.NewBudget(gen.Quantum)
+		base := rapid.SampledFrom([]int{0, 0, 32 * 1000, -32 * 1000, 7, -13}).Draw(t, "base")
+		u := newSUT(gen.StoreKind{Name: "paginated"}, bud, cl)
+		cycles := rapid.IntRange(1, 3).Draw(t, "cycles")
+		for cy := 0; cy < cycles; cy++ {
+			if cy > 0 {
+				cl.logf("Clear")
+				u.apply(sop{Kind: "clear"})
+				cl.label("cleared-then-refilled")
+			}
+			for _, op := range pagScenario(t, base) {
+				cl.logf("%s", op)
+				if msg := u.apply(op); msg != "" {
+					t.Fatalf("C09 scenario: %s", msg)
+				}
+			}
+		}
+		exp := u.exp()
+		pb := u.s.ToProto()
+		var buf bytes.Buffer
+		u.s.EncodeProto(sketchpb.NewStoreBuilder(&buf))
+		var streamed sketchpb.Store
+		if err := proto.Unmarshal(buf.Bytes(), &streamed); err != nil {
+			t.Fatalf("C09 scenario: streamed bytes do not unmarshal: %v", err)
+		}
+		if !proto.Equal(&streamed, pb) {
+			t.Fatalf("C09 scenario: streaming writer wrote %v, ToProto() is %v", &streamed, pb)
+		}
+		wire, err := proto.Marshal(pb)
+		if err != nil {
+			t.Fatalf("C09 scenario: Marshal: %v", err)
+		}
+		var back sketchpb.Store
+		if err := proto.Unmarshal(wire, &back); err != nil {
+			t.Fatalf("C09 scenario: Unmarshal: %v", err)
+		}
+		ranks := probeRanksFor(exp, bud)
+		for _, tk := range gen.NonCollapsing {
+			target := tk.New()
+			mergeProto(target, &back, rapid.Bool().Draw(t, "viamethod"))
+			if d := obs.DiffStore(obs.Store(target, ranks), obs.ExpectStore(exp, ranks)); d != "" {
+				t.Fatalf("C09 scenario: the message of a paginated store rebuilt into %s differs from the store's content %s: %s", tk, exp, d)
+			}
+		}
+		cl.done(len(exp) >= 2)
+	})
+}
